@@ -821,6 +821,9 @@ def main():
     err = translate_meas.translate_measures(REPO, GEN, write)
     if err:
         notes.append(f"TRANSLATOR-IMP(measures): {err}")
+    err = translate_meas.translate_normalize(REPO, GEN, write)
+    if err:
+        notes.append(f"TRANSLATOR-IMP(normalize): {err}")
     err = translate_meas.translate_persist(REPO, GEN, write)
     if err:
         notes.append(f"TRANSLATOR-IMP(save/load): {err}")
